@@ -28,6 +28,10 @@ type VerifierCircuit struct {
 
 	// This is configuration for the circuit, it is a constant not a variable
 	CommonCircuitData types.CommonCircuitData `gnark:"-"`
+
+	// The inner circuit's verifier key, fixed when the circuit is compiled. When set, VerifierData
+	// (a prover supplied witness) is constrained to equal it.
+	FixedVerifierData *types.VerifierOnlyCircuitDataRaw `gnark:"-"`
 }
 
 type CircuitFixed struct {
@@ -35,9 +39,44 @@ type CircuitFixed struct {
 	VerifierData      variables.VerifierOnlyCircuitData
 	ProofWithPis      variables.ProofWithPublicInputs
 	CommonCircuitData types.CommonCircuitData `gnark:"-"`
+
+	// The inner circuit's verifier key; must be set when the circuit is compiled (see VerifierCircuit).
+	FixedVerifierData *types.VerifierOnlyCircuitDataRaw `gnark:"-"`
+}
+
+// Constrains the witnessed verifier data to the verifier key the circuit was compiled for. The
+// transcript only absorbs the circuit digest and FRI only opens the constants/sigmas cap at the
+// queried indices, so without this the key (in particular unqueried cap entries) is chosen by the prover.
+func assertFixedVerifierData(
+	api frontend.API,
+	verifierData variables.VerifierOnlyCircuitData,
+	fixed *types.VerifierOnlyCircuitDataRaw,
+) error {
+	if len(fixed.ConstantsSigmasCap) != len(verifierData.ConstantSigmasCap) {
+		return fmt.Errorf("fixed verifier data has %d cap entries, circuit has %d", len(fixed.ConstantsSigmasCap), len(verifierData.ConstantSigmasCap))
+	}
+	circuitDigest, ok := new(big.Int).SetString(fixed.CircuitDigest, 10)
+	if !ok {
+		return fmt.Errorf("fixed verifier data: invalid circuit digest %q", fixed.CircuitDigest)
+	}
+	api.AssertIsEqual(verifierData.CircuitDigest, circuitDigest)
+	for i, capEntryRaw := range fixed.ConstantsSigmasCap {
+		capEntry, ok := new(big.Int).SetString(capEntryRaw, 10)
+		if !ok {
+			return fmt.Errorf("fixed verifier data: invalid cap entry %q", capEntryRaw)
+		}
+		api.AssertIsEqual(verifierData.ConstantSigmasCap[i], capEntry)
+	}
+	return nil
 }
 
 func (c *CircuitFixed) Define(api frontend.API) error {
+	if c.FixedVerifierData == nil {
+		return fmt.Errorf("CircuitFixed must be compiled with FixedVerifierData set to the inner circuit's verifier key")
+	}
+	if err := assertFixedVerifierData(api, c.VerifierData, c.FixedVerifierData); err != nil {
+		return err
+	}
 	verifierChip := NewVerifierChip(api, c.CommonCircuitData)
 	verifierChip.Verify(c.ProofWithPis.Proof, c.ProofWithPis.PublicInputs, c.VerifierData)
 
@@ -68,27 +107,38 @@ func (c *CircuitFixed) Define(api frontend.API) error {
 }
 
 func (c *VerifierCircuit) Define(api frontend.API) error {
+	if c.FixedVerifierData != nil {
+		if err := assertFixedVerifierData(api, c.VerifierData, c.FixedVerifierData); err != nil {
+			return err
+		}
+	}
 	verifierChip := NewVerifierChip(api, c.CommonCircuitData)
 	verifierChip.Verify(c.Proof, c.PublicInputs, c.VerifierData)
 	return nil
 }
 
-func CompileVerifierCircuit(circuitPath string, system string) error {
-	log := logger.Logger()
-	verifierOnlyCircuitData := variables.DeserializeVerifierOnlyCircuitData(
-		types.ReadVerifierOnlyCircuitData(circuitPath + "/verifier_only_circuit_data.json"),
-	)
+// Builds the verifier circuit to compile from the plonky2 circuit files in circuitPath, with the
+// verifier key fixed to the one in verifier_only_circuit_data.json.
+func newVerifierCircuit(circuitPath string) VerifierCircuit {
+	verifierOnlyCircuitDataRaw := types.ReadVerifierOnlyCircuitData(circuitPath + "/verifier_only_circuit_data.json")
+	verifierOnlyCircuitData := variables.DeserializeVerifierOnlyCircuitData(verifierOnlyCircuitDataRaw)
 	proofWithPis, _ := variables.DeserializeProofWithPublicInputs(
 		types.ReadProofWithPublicInputs(circuitPath + "/proof_with_public_inputs.json"),
 	)
 	commonCircuitData := types.ReadCommonCircuitData(circuitPath + "/common_circuit_data.json")
 
-	circuit := VerifierCircuit{
+	return VerifierCircuit{
 		Proof:             proofWithPis.Proof,
 		PublicInputs:      proofWithPis.PublicInputs,
 		VerifierData:      verifierOnlyCircuitData,
 		CommonCircuitData: commonCircuitData,
+		FixedVerifierData: &verifierOnlyCircuitDataRaw,
 	}
+}
+
+func CompileVerifierCircuit(circuitPath string, system string) error {
+	log := logger.Logger()
+	circuit := newVerifierCircuit(circuitPath)
 	var builder frontend.NewBuilder
 	if system == "plonk" {
 		builder = scs.NewBuilder
